@@ -95,12 +95,62 @@ def _cvc5_check(assertions: list, timeout_s: float) -> str:
             pass
 
 
+_COMMUTATIVE = None
+_AC = {z3.Z3_OP_AND, z3.Z3_OP_OR, z3.Z3_OP_ADD, z3.Z3_OP_MUL, z3.Z3_OP_RE_UNION, z3.Z3_OP_RE_INTERSECT}
+
+
+def _term_key(t) -> str:
+    """Canonical structural hash of a term: children of commutative operators are sorted, because
+    z3.simplify orders them by internal AST ids, which differ between re-executions of a path."""
+    import hashlib
+
+    global _COMMUTATIVE
+    if _COMMUTATIVE is None:
+        _COMMUTATIVE = {z3.Z3_OP_AND, z3.Z3_OP_OR, z3.Z3_OP_ADD, z3.Z3_OP_MUL, z3.Z3_OP_EQ, z3.Z3_OP_DISTINCT,
+                        z3.Z3_OP_RE_UNION, z3.Z3_OP_RE_INTERSECT, z3.Z3_OP_IFF, z3.Z3_OP_XOR}
+    memo: dict = {}
+
+    def h(x) -> str:
+        i = x.get_id()
+        if i in memo:
+            return memo[i]
+        if z3.is_quantifier(x):
+            r = hashlib.sha1(("Q%d%s|" % (x.num_vars(), "L" if x.is_lambda() else "A" if x.is_forall() else "E") + h(x.body())).encode()).hexdigest()
+        elif z3.is_var(x):
+            r = "V%d" % z3.get_var_index(x)
+        elif z3.is_app(x):
+            d = x.decl()
+            k = d.kind()
+            if k in _AC:
+                # associative-commutative: flatten nested applications of the same operator, sort the leaves
+                leaves, stack = [], list(x.children())
+                while stack:
+                    c = stack.pop()
+                    if z3.is_app(c) and c.decl().kind() == k:
+                        stack.extend(c.children())
+                    else:
+                        leaves.append(h(c))
+                ch = sorted(leaves)
+            else:
+                ch = [h(c) for c in x.children()]
+                if k in _COMMUTATIVE:
+                    ch.sort()
+            name = d.name() if x.num_args() or d.kind() == z3.Z3_OP_UNINTERPRETED else x.sexpr()
+            r = hashlib.sha1((str(d.kind()) + ":" + name + "(" + ",".join(ch) + ")").encode()).hexdigest()
+        else:
+            r = hashlib.sha1(x.sexpr().encode()).hexdigest()
+        memo[i] = r
+        return r
+
+    return h(t)
+
+
 class Ctx:
     def __init__(
         self,
-        prefix: list[bool],
+        prefix,
         *,
-        feas_timeout_ms: int = 4000,
+        feas_timeout_ms: int = 1500,
         oblig_timeout_ms: int = 10000,
         use_cvc5: bool = True,
         max_branches: int = 4000,
@@ -108,10 +158,10 @@ class Ctx:
         self.solver = z3.Solver()
         self.solver.set("timeout", feas_timeout_ms)
         self.pc: list = []
-        self.prefix = prefix
+        self.prefix = dict(prefix) if prefix else {}
         self.pos = 0
-        self.decisions: list[bool] = []
-        self.alts: list[list[bool]] = []
+        self.decisions: dict = {}
+        self.alts: list[dict] = []
         self.obligs: list[Obligation] = []
         self.tainted = False
         self.taint_reasons: list[str] = []
@@ -152,10 +202,77 @@ class Ctx:
         self.tainted = True
         self.taint_reasons.append(why)
 
+    def _syms(self, t) -> frozenset:
+        """Uninterpreted symbols (constants and functions) occurring in a term (cached by AST id)."""
+        cache = self.__dict__.setdefault("_symcache", {})
+        key = t.get_id()
+        if key in cache:
+            return cache[key][1]
+        out = set()
+        seen = set()
+        stack = [t]
+        while stack:
+            x = stack.pop()
+            i = x.get_id()
+            if i in seen:
+                continue
+            seen.add(i)
+            if z3.is_quantifier(x):
+                stack.append(x.body())
+                continue
+            if z3.is_app(x):
+                d = x.decl()
+                if d.kind() == z3.Z3_OP_UNINTERPRETED:
+                    out.add(d.name())
+                stack.extend(x.children())
+        r = frozenset(out)
+        cache[key] = (t, r)  # keeping t alive pins its AST id (ids of freed ASTs are reused)
+        return r
+
+    def _slice(self, extra) -> list:
+        """Constraint independence: the assertions of pc that (transitively) share a symbol with `extra`.
+        pc is satisfiable by construction, and parts over disjoint symbols are independent, so
+        sat(slice and extra) <=> sat(pc and extra)."""
+        want = set()
+        for e in extra:
+            want |= self._syms(e)
+        items = [(a, self._syms(a)) for a in self.pc]
+        chosen = [False] * len(items)
+        changed = True
+        while changed:
+            changed = False
+            for i, (a, sy) in enumerate(items):
+                if not chosen[i] and (sy & want):
+                    chosen[i] = True
+                    if not sy <= want:
+                        want |= sy
+                        changed = True
+        return [a for (a, _), c in zip(items, chosen) if c]
+
     def _check(self, *extra) -> str:
         t0 = time.time()
         self.feas_queries += 1
+        if extra and len(self.pc) > 8:
+            sl = self._slice(extra)
+            if len(sl) < len(self.pc):
+                s2 = z3.Solver()
+                s2.set("timeout", self.feas_timeout_ms)
+                for a in sl:
+                    s2.add(a)
+                r = s2.check(*extra)
+                if str(r) == "unknown" and self.use_cvc5:
+                    rc = _cvc5_check(sl + list(extra), 5.0)
+                    if rc in ("sat", "unsat"):
+                        r = rc
+                self.solver_time += time.time() - t0
+                return str(r)
         r = self.solver.check(*extra)
+        if str(r) == "unknown" and self.use_cvc5:
+            # z3's sequence solver gives up on many satisfiable string constraints that cvc5 decides at once
+            rc = _cvc5_check(self.pc + list(extra), 5.0)
+            self.cvc5_feas = getattr(self, "cvc5_feas", 0) + 1
+            if rc in ("sat", "unsat"):
+                r = rc
         dt_ = time.time() - t0
         if dt_ > 1.0 and os.environ.get("PYVC_DUMP_SLOW"):
             s2 = z3.Solver()
@@ -180,8 +297,23 @@ class Ctx:
             return True
         if z3.is_false(t):
             return False
-        if self.pos < len(self.prefix):
-            d = self.prefix[self.pos]
+        if getattr(self, "spec_depth", 0) > 0:
+            # speculative evaluation never touches the decision vector: determined branches are followed,
+            # a real fork aborts the speculation (the caller then case-splits on its guard)
+            if self._check(t) == "unsat":
+                self.assume(z3.Not(t))
+                return False
+            if self._check(z3.Not(t)) == "unsat":
+                self.assume(t)
+                return True
+            raise SpecError("fork inside speculative evaluation")
+        # decisions are keyed by the branching term itself (a path fixes the truth value of a term), so a
+        # replay stays aligned even if a solver verdict (e.g. a timeout) differs between two runs
+        key = _term_key(t)
+        if key in self.prefix:
+            d = self.prefix[key]
+        elif key in self.decisions:
+            d = self.decisions[key]
         else:
             if len(self.decisions) > self.max_branches:
                 raise Unsupported("branch budget exceeded on one path")
@@ -194,9 +326,12 @@ class Ctx:
                     d = True
                 else:
                     d = True
-                    self.alts.append(self.decisions + [False])
+                    alt = dict(self.prefix)
+                    alt.update(self.decisions)
+                    alt[key] = False
+                    self.alts.append(alt)
         self.pos += 1
-        self.decisions.append(d)
+        self.decisions[key] = d
         self.trace.append(("+" if d else "-") + note)
         self.assume(t if d else z3.Not(t))
         return d
@@ -210,10 +345,32 @@ class Ctx:
             return True
         return self._check(z3.Not(t)) == "unsat"
 
+    # ---- speculative evaluation (specification guards) ------------------------------
+    def checkpoint(self):
+        self.spec_depth = getattr(self, "spec_depth", 0) + 1
+        self.solver.push()
+        return (len(self.pc), dict(self.decisions), self.pos, len(self.alts), len(self.obligs), len(self.trace), self.counter, self.tainted)
+
+    def commit(self, cp):
+        self.spec_depth -= 1
+
+    def rollback(self, cp):
+        self.spec_depth -= 1
+        self.solver.pop()
+        npc, nd, pos, na, no, nt, cnt, taint = cp
+        del self.pc[npc:]
+        self.decisions = nd
+        self.pos = pos
+        del self.alts[na:]
+        del self.obligs[no:]
+        del self.trace[nt:]
+        self.counter = cnt
+        self.tainted = taint
+
     # ---- obligations ---------------------------------------------------------------
     def obligate(self, name: str, t, kind: str = "post", detail: str = "") -> Obligation:
         ob = Obligation(name=name, kind=kind, detail=detail, path="".join(
-            "T" if d else "F" for d in self.decisions), tainted=self.tainted)
+            "T" if d else "F" for d in self.decisions.values()), tainted=self.tainted)
         if isinstance(t, bool):
             t = z3.BoolVal(t)
         t = z3.simplify(t)
@@ -248,6 +405,9 @@ class Ctx:
                 else:
                     ob.solver_output += f" ; cvc5: {rc}"
         ob.time_s = time.time() - t0
+        if ob.time_s > 1.0 and os.environ.get("PYVC_DEBUG"):
+            import sys as _s
+            print(f"[pyvc]   slow obligation {name} {ob.status} {ob.backend} {ob.time_s:.1f}s", file=_s.stderr, flush=True)
         self.solver_time += ob.time_s
         self.obligs.append(ob)
         # standard assert-then-assume: later obligations on this path are checked modulo this one
